@@ -1,6 +1,53 @@
-(* Properties/C07.v — placeholder until Model/Project.v is assembled. *)
-From Coq Require Import List.
+(* Properties/C07.v — the way a resource is supplied does not change what gets stored.
+   Statements only; proofs in Proofs/Project.v.  The model (Model/Project.v) covers the dispatch
+   logic of iterpackages over an abstract file tree with ideal codecs; decompression, tar
+   extraction, temporary files, listing order and "the input is not modified" are runtime
+   behaviour decided by the harness (partial). [header_ok] is lmf._read_header's verdict. *)
+From Coq Require Import String.
+From Coq Require Import ZArith List Bool.
 Import ListNotations.
-Example C07_placeholder : length (@nil nat) = 0.
-Proof. reflexivity. Qed.
-Print Assumptions C07_placeholder.
+Require Import WnV.Base.Sx WnV.Model.Project WnV.Proofs.Project.
+Local Open Scope Z_scope.
+
+(* every route of the property yields exactly the one resource: plain file, .gz, .xz, package directory
+   with extra files, tar / tar.gz / tar.xz of the file or of the package, tar of the gzipped file *)
+Theorem C07_all_routes_same : forall header_ok f b extras nm r,
+    is_lmf header_ok b = true -> Forall (fun e => other header_ok (snd e)) extras ->
+    In r (routes b extras nm) -> iterpackages header_ok (S (S f)) r = Ok [Pkg WORDNET b].
+Proof. exact all_routes_same. Qed.
+Print Assumptions C07_all_routes_same.
+
+Theorem C07_package_directory : forall header_ok f pre post name b,
+    is_lmf header_ok b = true ->
+    Forall (fun e => other header_ok (snd e)) pre -> Forall (fun e => other header_ok (snd e)) post ->
+    iterpackages header_ok (S f) (Dir (pre ++ (name, File (Raw b)) :: post)) = Ok [Pkg WORDNET b].
+Proof. exact route_package_dir. Qed.
+Print Assumptions C07_package_directory.
+
+Theorem C07_archive_is_its_member : forall header_ok f name m,
+    iterpackages header_ok (S f) (File (Tar [(name, m)])) = iterpackages header_ok f m
+    /\ iterpackages header_ok (S f) (File (Gz (Tar [(name, m)]))) = iterpackages header_ok f m
+    /\ iterpackages header_ok (S f) (File (Xz (Tar [(name, m)]))) = iterpackages header_ok f m.
+Proof. exact route_tar. Qed.
+Print Assumptions C07_archive_is_its_member.
+
+Theorem C07_collection : forall header_ok f es,
+    is_package_directory header_ok (Dir es) = false ->
+    is_collection_directory header_ok (Dir es) = true ->
+    iterpackages header_ok (S f) (Dir es)
+    = seq_res (map (package header_ok) (filter (is_package_directory header_ok) (map snd es))).
+Proof. exact route_collection. Qed.
+Print Assumptions C07_collection.
+
+Theorem C07_not_a_resource : forall header_ok f b,
+    is_lmf header_ok b = false -> is_ili b = false -> iterpackages header_ok (S f) (File (Raw b)) = WnError.
+Proof. exact not_a_resource. Qed.
+Print Assumptions C07_not_a_resource.
+
+Example C07_nonvacuous :
+  let b := [60; 63; 120; 109; 108; 32; 1] in
+  let ok := fun x => str_eqb x b in
+  iterpackages ok 5 (File (Gz (Tar [([112], Dir [([114], File (Raw [1; 2])); ([120], File (Raw b))])])))
+  = Ok [Pkg WORDNET b].
+Proof. vm_compute. reflexivity. Qed.
+Print Assumptions C07_nonvacuous.
